@@ -67,6 +67,7 @@ func genRec(cfg Config, emit func(string, bool, []string)) {
 		if c%10 == 6 {
 			// refreshing and pruning enabled (not in the Lean model: decided by the oracle only)
 			mode, refresh = "oracle", "-refresh"
+			maxB = minB * 16 // the backoff of a long-failing object outgrows the refresh interval (700 ms)
 			if c%20 == 16 {
 				// ... on a table whose initializer stays pending over several prune intervals
 				refresh = "-refresh-init"
@@ -75,6 +76,20 @@ func genRec(cfg Config, emit func(string, bool, []string)) {
 		add("cfg %d %d %d %s%s%s%s", minB, maxB, roundSize, mode, set, map[int]string{0: "", 1: "-batch"}[batch], refresh)
 		nid := 1 + r.IntN(4)
 		clock := 0
+		if refresh != "" {
+			// an object nobody asked to reconcile, and one that keeps failing for longer than the refresh
+			// interval (its backoff outgrows it): refreshing does not touch either
+			add("putraw 9 %d", r.IntN(100))
+			add("fail 8 1")
+			add("put 8 %d", r.IntN(100))
+			for k := 0; k < 7; k++ {
+				add("advance %d", []int{211, 397, 809, 1201}[r.IntN(4)])
+				add("obs")
+			}
+			add("fail 8 0")
+			add("advance %d", maxB+1)
+			add("obs")
+		}
 		if refresh == "-refresh-init" {
 			for id := 1; id <= 3; id++ {
 				add("put %d %d", id, r.IntN(100))
@@ -299,6 +314,7 @@ type recExec struct {
 	delRev        map[uint64]uint64 // revision of the user's deletion of an object
 	lwSamples     []lwSample        // low-watermark as reported while a round is in progress
 	refresh       time.Duration     // refresh interval (0 = refreshing and pruning disabled)
+	raw           map[uint64]bool   // objects written without a reconciliation request
 	withInit      bool              // the table has an initializer that stays pending until `initdone`
 	initDone      func(statedb.WriteTxn)
 	retained      []retainedObj // object versions read earlier, with what they looked like then
@@ -397,6 +413,9 @@ func (e *recExec) doUpdate(rev statedb.Revision, obj *recObj) error {
 	if st.Kind == reconciler.StatusKindDone {
 		e.o.Fail("C15", "updated-a-done-object", nil, fmt.Sprintf("Update called for object %d whose status is Done", obj.ID))
 	}
+	if st.Kind != reconciler.StatusKindPending && st.Kind != reconciler.StatusKindRefreshing && st.Kind != reconciler.StatusKindError && st.Kind != reconciler.StatusKindDone {
+		e.o.Fail("C15", "updated-an-object-not-awaiting-reconciliation", map[string]string{"status": st.Kind.String()}, fmt.Sprintf("Update called for object %d whose status (%q) is neither pending nor refreshing: nobody asked for it to be reconciled", obj.ID, st.Kind.String()))
+	}
 	e.inUpdate, e.inUpdateRetry = obj.ID, e.attempts[obj.ID] > 0
 	e.attempts[obj.ID]++
 	e.mu.Unlock()
@@ -466,6 +485,7 @@ func (o recOps) DeleteBatch(ctx context.Context, txn statedb.ReadTxn, batch []re
 func (e *recExec) setup(minB, maxB, roundSize int, batch bool) {
 	e.start = time.Now()
 	e.failing = map[uint64]bool{}
+	e.raw = map[uint64]bool{}
 	e.injects = map[uint64][]func(){}
 	e.ref = map[uint64]recRef{}
 	e.target = map[uint64]recTarget{}
@@ -542,6 +562,7 @@ func (e *recExec) put(id uint64, data int) {
 	e.attempts[id] = 0
 	delete(e.k4, id)
 	delete(e.delRev, id)
+	delete(e.raw, id)
 	e.mu.Unlock()
 	wtxn.Commit()
 }
@@ -957,6 +978,20 @@ func (e *recExec) Do(o *Out, f []string) string {
 	case "touch":
 		id, _ := strconv.ParseUint(f[1], 10, 64)
 		e.touch(id)
+	case "putraw":
+		// an object written WITHOUT a reconciliation request (zero status): the reconciler leaves it alone
+		id, _ := strconv.ParseUint(f[1], 10, 64)
+		d, _ := strconv.Atoi(f[2])
+		wtxn := e.db.WriteTxn(e.table)
+		e.table.Insert(wtxn, &recObj{ID: id, Data: d})
+		e.mu.Lock()
+		e.ref[id] = recRef{data: d, other: 0, rev: e.table.Revision(wtxn)}
+		e.raw[id] = true
+		e.calls = append(e.calls, recCall{op: "change", id: id, at: e.since()})
+		e.attempts[id] = 0
+		delete(e.delRev, id)
+		e.mu.Unlock()
+		wtxn.Commit()
 	case "multi":
 		// several user writes in ONE write transaction: "d<id>" deletes, "p<id>:<data>" puts
 		e.multi(strings.Split(f[1], ","))
@@ -1033,6 +1068,12 @@ func (e *recExec) finalOracle(o *Out) {
 	}
 	for obj := range e.table.All(rtx) {
 		t := e.target[obj.ID]
+		if e.raw[obj.ID] {
+			if st := obj.GetStatus(); st.Kind == reconciler.StatusKindDone || st.Kind == reconciler.StatusKindError {
+				o.Fail("C15", "status-written-for-an-object-never-requested", nil, fmt.Sprintf("object %d was written without a reconciliation request and now carries status %s", obj.ID, st.Kind))
+			}
+			continue
+		}
 		if obj.GetStatus().Kind != reconciler.StatusKindDone || !t.present || t.data != obj.Data {
 			ff := map[string]string{}
 			for k, v := range feat {
